@@ -297,7 +297,7 @@ def run_harness(prop, tier, seed, outdir, log, extra=(), race=False):
     return summary, out
 
 
-def eval_cases(prop, summary, outdir, log):
+def eval_cases(prop, summary, outdir, log, tier="quick"):
     """coqc every generated case shard (vm_compute of the model on the observed cases)."""
     files = summary.get("case_files") or []
     mism = []
@@ -308,7 +308,7 @@ def eval_cases(prop, summary, outdir, log):
         return fn, rc, out
 
     t0 = time.time()
-    with ThreadPoolExecutor(max_workers=16) as ex:
+    with ThreadPoolExecutor(max_workers=16 if tier == "quick" else 8) as ex:
         for fn, rc, out in ex.map(one, files):
             if rc != 0:
                 errors.append({"file": fn, "log": out.strip().splitlines()[-8:]})
@@ -432,7 +432,7 @@ def main():
             else:
                 for v in summary.get("spec_violations") or []:
                     violations.append(v)
-                mism, errs = eval_cases(prop, summary, outdir, log)
+                mism, errs = eval_cases(prop, summary, outdir, log, tier)
                 for e in errs:
                     problems.append({"kind": "model-eval", "what": "model evaluation failed on " + e["file"], "detail": e["log"]})
                 if mism:
